@@ -92,6 +92,15 @@ CHECKS = {
             "INSIDE the cleanup delay (held by a gate); at the end the stored files must be the accepted ones.",
             "Cleanup delay virtualised by a module-local asyncio proxy (real-time sample in thorough); refusal = {'ok': False} reply or server-side closure.",
             "DESIGN.md §3 C10"),
+    "C11": ("exploration", "history + executable 5-flag model over exhaustively enumerated client operation sequences (each op on a Service freshly loaded from disk, live in-process server), directory snapshots and key-file monitor",
+            "All sequences over nine client operations (create valid / invalid / again from the stored configuration, "
+            "generate key, encrypt, upload configuration, upload index, search present / absent) up to length 4 (quick) / "
+            "5 (thorough), the complete workflow with every operation inserted at every position and every tail for all "
+            "nine schemes, and random sequences of length 6..12 are executed; accept/refuse, the flags persisted in "
+            "service_meta, SHA-256 snapshots of the service directory around refused operations, the key file's bytes "
+            "and end-of-workflow search results are compared with the model at every step.",
+            "Prerequisite relation taken from the handlers / frontend/README.md; upload flags are re-derived from the server on connect.",
+            "DESIGN.md §3 C11"),
     "C14": ("exploration", "post-condition monitors + independent recomputation of every ciphertext (PKCS7 + AES-CBC with the observed IV)",
             "The real AES-CBC wrapper (obtained by name, as the schemes do) is driven with all message lengths 0..80 "
             "for each key length and several keys, random lengths to 4096 biased to block boundaries, related keys, "
